@@ -939,7 +939,11 @@ func (g *gen) oracleOne(ts [][3]*vh.GTerm, custom bool, eo encOpts, do decOpts) 
 		for k, t := range ts {
 			parts[k] = wireTriple(t, lab)
 		}
-		g.rep.Add(vh.Case{Kind: "violation", Op: "rj.enc " + strings.Join(parts, " "), Detail: "C01: " + what + " — " + desc})
+		class := what
+		if i := strings.IndexAny(class, ":("); i > 0 {
+			class = class[:i]
+		}
+		g.violation("C01", "roundtrip "+strings.TrimSpace(class), "rj.enc "+strings.Join(parts, " "), "", what+" — "+desc)
 	}
 	if err != nil || rejected > 0 {
 		fail(fmt.Sprintf("encoder error (%v, %d triples rejected)", err, rejected))
